@@ -68,6 +68,19 @@ Definition bad_name (p : param) : Prop := ~ In (p_name p) allowed_args.
 Definition sig_faulty (ps : list param) : Prop :=
   first_not_self ps \/ Exists bad_kind ps \/ Exists bad_name ps.
 
+(* What the SOURCE says about a decorated function -- the options as written,
+   whichever way the decorator is spelled: the factory  @state(first=True),  the
+   plain call  k = state(f, first=True)  (bare @state: no option), timed_state,
+   default_state. *)
+Definition marked_first (k : deco) : bool :=
+  match k with DState f _ | DStateCall f _ | DTimed f _ => f | DDefault => false end.
+Definition marked_must_finish (k : deco) : bool :=
+  match k with DState _ mf | DStateCall _ mf | DTimed _ mf => mf | DDefault => true end.
+Definition marked_default (k : deco) : bool :=
+  match k with DDefault => true | _ => false end.
+Definition marked_timed (k : deco) : bool :=
+  match k with DTimed _ _ => true | _ => false end.
+
 (* Name lookup in a class body.  [rb] is the part of the body that has been
    executed, NEAREST LINE FIRST (the body read backwards): the name [k] denotes
    what the nearest preceding binding of [k] gave it; a binding  k = k'  gave it
